@@ -467,9 +467,6 @@ Proof.
   unfold WFr. rewrite V, T, AP. repeat split; assumption.
 Qed.
 
-Lemma vis_zero_false_len c : len4 c -> True.
-Proof. trivial. Qed.
-
 Lemma collect_fees_path s sender pid s1 c : WFr s -> collect_fees s sender pid = Ok (s1, c) ->
   BalPath (bal_of s) (bal_of s1) /\ WFr s1.
 Proof.
